@@ -307,6 +307,10 @@ func (w *Worker) apply(st *Stim) {
 		for _, r := range st.Reqs {
 			c.NSent++
 			ev := Event{Ev: "send", C: c.Name, I: c.NSent, K: r.K, Slots: r.Slots, Dups: r.Dups}
+			for _, sn := range r.Slots {
+				w.Cl.TagOfName(sn)
+				ev.Nums = append(ev.Nums, w.Cl.SlotNum[sn])
+			}
 			if st.Op == "send" {
 				rb := w.Cl.Concrete(c.Name, c.NSent, r)
 				b = append(b, rb...)
@@ -445,6 +449,12 @@ func (w *Worker) apply(st *Stim) {
 		if n > 0 {
 			w.Unreal++
 		}
+	case "topo":
+		w.Cl.Publish(st.Desc, st.Kind)
+		w.Log.Add(Event{Ev: "topo", Kind: st.Kind, Desc: st.Desc})
+	case "refresh":
+		// one probe round: tick (probe), reply, refresher, tick (rebuild); then publish the proxy's routing table
+		w.refresh()
 	case "pause":
 		if c, ok := w.Clients[st.C]; ok {
 			c.Paused = true
@@ -465,6 +475,47 @@ func (w *Worker) apply(st *Stim) {
 		w.Log.Add(Event{Ev: "skip", Txt: "unknown op " + st.Op})
 		w.Unreal++
 	}
+}
+
+func (w *Worker) refresh() {
+	for round := 0; round < 2 && !w.Dead; round++ {
+		w.H.DrainIdle()
+		core.VerifRequestTick()
+		w.H.Wake()
+		w.Log.Add(Event{Ev: "tick"})
+		for i := 0; i < 8 && !w.Dead; i++ {
+			w.flushOut()
+			if !w.iterate(2 * time.Millisecond) {
+				break
+			}
+		}
+		// the refresher goroutine may be dialing INFO connections: wait until it waits for the next reply
+		w.H.WaitIdle(1500 * time.Millisecond)
+		time.Sleep(2 * time.Millisecond)
+	}
+	if w.Dead {
+		return
+	}
+	core.VerifRequestTick()
+	w.H.Wake()
+	w.settle(16)
+	s := core.VerifSnapshot(true)
+	ev := Event{Ev: "refreshed"}
+	name := func(addr string) string {
+		if n := w.Cl.NodeByAddr(addr); n != nil {
+			return n.Name
+		}
+		return addr
+	}
+	for _, r := range s.Slots {
+		tr := TableRange{Lo: r.Start, Hi: r.End, Master: name(r.Master)}
+		for _, sl := range r.Slaves {
+			tr.Slaves = append(tr.Slaves, name(sl))
+		}
+		sort.Strings(tr.Slaves)
+		ev.Table = append(ev.Table, tr)
+	}
+	w.Log.Add(ev)
 }
 
 // RunScenario replays one scenario in step mode and leaves the proxy clean for the next one.
